@@ -317,6 +317,50 @@ def check_massless(rep, proj, tier):
     rep.floor("massless-target entries compared", n_cmp, 300)
 
 
+def _domain_job(kw):
+    """Concrete kinematics: x = 1/2, Q2 = 10, M^2 = 30 put the Nachtmann point at exactly 1/3.  On a grid starting at 2/5 the requested x lies
+    inside the grid and the shifted one below it: the request must end in an explicit rejection, in every correction mode (each mode reaches
+    the uncorrected structure functions through its own code path).  On a grid starting at 1/4 the same request is served."""
+    from .. import model
+    from . import c14
+    import ast
+
+    proj = model.project()
+    base = dict(process=kw["process"], fns="ZM-VFNS", nfff=4, pto=1, tmc=kw["tmc"], ren_sv=False, fact_sv=False, projectile=kw["projectile"])
+    try:
+        c14.fold_history(proj, base, [(kw["obs"], [1])], xgrid=[kw["xmin"], Fraction(1)])
+    except A.Undecided as e:
+        return ("undecided", str(e)[:200])
+    except S.Raised as e:
+        explicit = isinstance(e.node, ast.Raise) and S.raised_is(e, "ValueError")
+        site, construct, stmt = sweep.locate(proj, e.node)
+        return ("rejected" if explicit else "internal", f"{e.etype}: {str(e.msg)[:100]} at {site} ({construct})")
+    return ("served", "")
+
+
+def check_domain(rep, proj, tier):
+    kinds = ["F2_total", "FL_total", "F3_total", "g1_total"] if tier == "quick" else ["F2_total", "FL_total", "F3_total", "g1_total", "F2_charm", "FL_light", "F3_light"]
+    js = [dict(obs=o, tmc=t, xmin=xm, process=pr, projectile=pj) for o, t, xm, (pr, pj) in itertools.product(
+        kinds, [1, 2, 3], [Fraction(2, 5), Fraction(1, 4)], [("NC", "electron")] if tier == "quick" else [("NC", "electron"), ("CC", "neutrino")])
+          if not (pr == "CC" and o.startswith("g1"))]
+    outs = sweep.run_cells(_domain_job, js)
+    n = 0
+    for kw, (status, msg) in zip(js, outs):
+        below = kw["xmin"] > Fraction(1, 3)
+        label = f"{kw['obs']}|{kw['process']}|TMC={kw['tmc']}|x = 1/2, xi = 1/3, grid from {kw['xmin']}"
+        if status == "undecided":
+            rep.undecided("C10.domain", "src/yadism/esf/tmc.py", label, msg)
+            continue
+        n += 1
+        if below:
+            rep.check(status == "rejected", "C10.domain", "src/yadism/esf/tmc.py", label, "shifted point below the grid: explicit rejection",
+                      ("the request is served although the uncorrected structure functions are needed at xi = 1/3, below the first grid node 2/5"
+                       if status == "served" else f"ends in an internal error instead of a rejection: {msg}"), key=label)
+        else:
+            rep.check(status == "served", "C10.domain", "src/yadism/esf/tmc.py", label, "shifted point inside the grid: served", f"valid request ends in {msg}", key=label)
+    rep.floor("TMC domain requests decided", n, 20)
+
+
 def check_vars_and_limits(rep, proj):
     """xi, rho, mu as folded from the TMC constructor == published definitions; integral coefficients carry mu;
     the F(xi) coefficient -> 1 and xi -> x as mu -> 0."""
@@ -374,7 +418,8 @@ def run(rep, proj, tier):
         "closed form is z/xi (h2, h3, K1), 1-z (g2), z ln(1/z)/xi (K2) convolved with the right structure function. Also xi, rho, mu and the shifted "
         "kinematics equal their definitions, integral coefficients vanish and the F(xi) coefficient tends to 1 as M -> 0. "
         "The corrected operator of an observable is the same whether or not other observables were requested before it with the very same kinematics objects. "
-        "NOT decided: quadrature accuracy. Rejection of out-of-grid shifted points is decided in C16.kin."
+        "A request whose Nachtmann point falls below the first grid node ends in an explicit rejection in every mode (concrete kinematics with xi = 1/3 exactly). "
+        "NOT decided: quadrature accuracy."
     )
     rep.rule_text = "jobs from literal domains; entries = order key x parton row x basis node; distinct by job label; non-trivial = TMC and raw operators fold."
     rep.trusted_base = ["CPython ast", "yadsa partial evaluator", "the formulas in this module's docstring (Schienbein et al. 2008 eqs. for F2/FL/F3 exact and "
@@ -387,6 +432,7 @@ def run(rep, proj, tier):
     check_vars_and_limits(rep, proj)
     check_shared(rep, proj, tier)
     check_massless(rep, proj, tier)
+    check_domain(rep, proj, tier)
     js = jobs(tier)
     outs = sweep.run_cells(_job, js)
     n_entries = 0
